@@ -211,6 +211,9 @@ func vfWasmExports(h int) []string {
 		for _, t := range def.ResultTypes() {
 			sig += string(tyc[t])
 		}
+		if _, _, imported := def.Import(); imported {
+			sig += ":imported"
+		}
 		out = append(out, sig)
 	}
 	sort.Strings(out)
